@@ -84,3 +84,7 @@ Proof. intros t acc H. apply search_partial. cbn [known_C04] in H. destruct (pla
 (* the statement of a search query does not depend on the term at all: the model's verdict on the text is the constant 1 *)
 Theorem search_text_independent : forall t t' acc acc', hd 0%Z (run_C04 (CSearch t acc)) = hd 0%Z (run_C04 (CSearch t' acc')).
 Proof. reflexivity. Qed.
+
+(* 6a15d74: the default of a Json field is returned as the JSON value *)
+Theorem json_default_holds : forall txt d, spec_C04 (CJsonDefault txt d) (run_C04 (CJsonDefault txt d)) = true.
+Proof. intros txt d. cbn [spec_C04 run_C04]. apply zlist_refl. Qed.
